@@ -1,5 +1,579 @@
-//! C13 harness — to be written (see /verif/mc/HARNESS_GUIDE.md).
-fn main() {
-    eprintln!("MACHINERY-ERROR: harness C13 not built yet");
-    std::process::exit(2);
+//! C13 — DBSCAN labels satisfy the definition of density-based clusters.
+//!
+//! E1 over (data set, eps, min_samples, metric, number width); every execution fits the real
+//! `DBSCAN` with BOTH neighbour-search backends, reads the training labelling back through the
+//! model's serde serialisation, judges it against the definition (eps-graph, core points,
+//! union-find over core points) and judges `predict` on a grid of query rows against a brute-force
+//! plurality vote. No randomness is involved anywhere (DBSCAN draws nothing).
+
+mod data;
+mod oracle;
+
+use data::{Lattice, Prepared};
+use mc_core::{self as mc, json, Harness, Job, Plan, Tier, Value};
+use oracle::{Metric, Reporter, Tag, Truth};
+use serde::Serialize;
+use smartcore::algorithm::neighbour::KNNAlgorithmName;
+use smartcore::cluster::dbscan::{DBSCANParameters, DBSCAN};
+use smartcore::linalg::naive::dense_matrix::DenseMatrix;
+use smartcore::math::distance::euclidian::Euclidian;
+use smartcore::math::distance::{Distance, Distances};
+use smartcore::math::num::RealNumber;
+use std::cell::RefCell;
+
+struct C13;
+
+// ------------------------------------------------------------------------------------------------
+// running the library
+
+enum Pred {
+    Panic(mc::PanicInfo),
+    Err(String),
+    Ok(Vec<f64>),
 }
+
+enum Fit {
+    Panic(mc::PanicInfo),
+    Err(String),
+    Unreadable(String),
+    Ok { labels: Vec<i64>, c: usize, pred: Pred },
+}
+
+fn run_backend<T, D>(x: &DenseMatrix<T>, q: &DenseMatrix<T>, eps: T, ms: usize, algo: KNNAlgorithmName, dist: D) -> Fit
+where
+    T: RealNumber + Serialize,
+    D: Distance<Vec<T>, T> + Serialize,
+{
+    let params = DBSCANParameters::<T, Euclidian>::default().with_eps(eps).with_min_samples(ms).with_algorithm(algo).with_distance(dist);
+    let model = match mc::guard(|| DBSCAN::fit(x, params)) {
+        Err(p) => return Fit::Panic(p),
+        Ok(Err(e)) => return Fit::Err(e.to_string()),
+        Ok(Ok(m)) => m,
+    };
+    // the labelling as exposed by the model's serde serialisation
+    let v = match serde_json::to_value(&model) {
+        Ok(v) => v,
+        Err(e) => return Fit::Unreadable(e.to_string()),
+    };
+    let labels: Option<Vec<i64>> = v["cluster_labels"].as_array().map(|a| a.iter().map(|l| l.as_i64().unwrap_or(i64::MIN)).collect());
+    let c = v["num_classes"].as_u64();
+    let (labels, c) = match (labels, c) {
+        (Some(l), Some(c)) => (l, c as usize),
+        _ => return Fit::Unreadable("serialised model has no cluster_labels / num_classes".into()),
+    };
+    let pred = match mc::guard(|| model.predict(q)) {
+        Err(p) => Pred::Panic(p),
+        Ok(Err(e)) => Pred::Err(e.to_string()),
+        Ok(Ok(v)) => Pred::Ok(v.iter().map(|t| t.to_f64().unwrap_or(f64::NAN)).collect()),
+    };
+    Fit::Ok { labels, c, pred }
+}
+
+struct Case<'a> {
+    family: &'a str,
+    pts: &'a [Vec<f64>],
+    queries: &'a [Vec<f64>],
+    eps: f64,
+    ms: usize,
+    metric: Metric,
+    width: u8,
+}
+
+fn to_t<T: RealNumber>(rows: &[Vec<f64>]) -> Vec<Vec<T>> {
+    rows.iter().map(|r| r.iter().map(|v| T::from_f64(*v).unwrap()).collect()).collect()
+}
+
+fn fit_both<T: RealNumber + Serialize>(c: &Case, eps: T) -> (Fit, Fit) {
+    let x: DenseMatrix<T> = mc_sc::dm(c.pts);
+    let q: DenseMatrix<T> = mc_sc::dm(c.queries);
+    match c.metric {
+        Metric::Euclid => (
+            run_backend(&x, &q, eps, c.ms, KNNAlgorithmName::LinearSearch, Distances::euclidian()),
+            run_backend(&x, &q, eps, c.ms, KNNAlgorithmName::CoverTree, Distances::euclidian()),
+        ),
+        Metric::Manhattan => (
+            run_backend(&x, &q, eps, c.ms, KNNAlgorithmName::LinearSearch, Distances::manhattan()),
+            run_backend(&x, &q, eps, c.ms, KNNAlgorithmName::CoverTree, Distances::manhattan()),
+        ),
+    }
+}
+
+/// Input class of a failed fit, decided from the input alone.
+fn input_class(pts: &[Vec<f64>]) -> &'static str {
+    if pts.len() == 1 {
+        "single-point"
+    } else if pts.iter().all(|p| p == &pts[0]) {
+        "all-identical"
+    } else {
+        "other"
+    }
+}
+
+fn run_case<T: RealNumber + Serialize>(c: &Case) {
+    let n = c.pts.len();
+    let xt: Vec<Vec<T>> = to_t(c.pts);
+    let qt: Vec<Vec<T>> = to_t(c.queries);
+    let eps = T::from_f64(c.eps).unwrap();
+    let t: Truth = oracle::truth(c.metric, &xt, eps, c.ms);
+    let ctx = format!("{} f{} n={} points={:?} eps={} min_samples={} metric={}", c.family, c.width, n, c.pts, c.eps, c.ms, c.metric.name());
+    let mut rep = Reporter::default();
+
+    let (lin, cov) = fit_both::<T>(c, eps);
+    let mut good: Vec<Option<(&Vec<i64>, usize)>> = vec![None, None];
+    let mut digest = 0x51u64;
+    for (bi, (backend, bkey, fit)) in [("LinearSearch", "linear", &lin), ("CoverTree", "covertree", &cov)].into_iter().enumerate() {
+        rep.set_tag(if bi == 0 { Tag::Linear } else { Tag::Cover });
+        match fit {
+            Fit::Panic(p) => {
+                let oc = if p.is_overflow_check() { ":overflow-check" } else { "" };
+                let site = format!("dbscan.fit:{}-{}:panic{}", bkey, input_class(c.pts), oc);
+                rep.v(&site, || {
+                    format!(
+                        "{} backend={}: fit panics, no labelling is produced: {}{}",
+                        ctx,
+                        backend,
+                        p.brief(),
+                        if p.is_overflow_check() { " (only in builds with arithmetic overflow checks, e.g. the dev/test profile; plain release wraps)" } else { "" }
+                    )
+                });
+                mc::count(if bi == 0 { "linear_fit_panics" } else { "covertree_fit_panics" });
+                digest = mc::hash::mix(digest, 0xdead);
+            }
+            Fit::Err(e) => {
+                rep.v(&format!("dbscan.fit:{}-{}:error", bkey, input_class(c.pts)), || format!("{} backend={}: fit returns Err({}) for eps > 0, min_samples >= 1", ctx, backend, e));
+                digest = mc::hash::mix(digest, 0xe44);
+            }
+            Fit::Unreadable(e) => {
+                rep.v("dbscan.serde:labels-unreadable", || format!("{} backend={}: training labels cannot be read from the serialised model: {}", ctx, backend, e));
+            }
+            Fit::Ok { labels, c: nc, pred } => {
+                let in_range = oracle::check_fit(&mut rep, &ctx, backend, &t, labels, *nc);
+                digest = mc::hash::mix(digest, mc::hash::h_u64s(&labels.iter().map(|l| *l as u64).collect::<Vec<_>>()));
+                digest = mc::hash::mix(digest, *nc as u64);
+                if in_range {
+                    good[bi] = Some((labels, *nc));
+                    match pred {
+                        Pred::Panic(p) => rep.v("dbscan.predict:panic", || format!("{} backend={}: predict panics: {}", ctx, backend, p.brief())),
+                        Pred::Err(e) => rep.v("dbscan.predict:error", || format!("{} backend={}: predict returns Err({})", ctx, backend, e)),
+                        Pred::Ok(pv) => {
+                            let st = oracle::check_predict(&mut rep, &ctx, backend, c.metric, &xt, eps, labels, *nc, &qt, pv);
+                            mc::count_n("predict_rows_without_neighbours", st.no_neighbours);
+                            mc::count_n("predict_rows_plurality_tie", st.ties);
+                            mc::count_n("predict_rows_noise_dominates", st.noise_wins);
+                            mc::count_n("predict_rows_cluster_wins", st.cluster_wins);
+                            digest = mc::hash::mix(digest, mc::hash::h_f64s(pv));
+                        }
+                    }
+                }
+            }
+        }
+    }
+    rep.set_tag(Tag::Cross);
+    if let (Some((l, _)), Some((cv, _))) = (good[0], good[1]) {
+        oracle::check_backends(&mut rep, &ctx, &t, l, cv);
+        mc::count("both_backends_compared");
+        if (0..n).any(|i| !t.core[i] && l[i] != cv[i] && l[i] >= 0 && cv[i] >= 0) {
+            mc::count("border_label_differs_between_backends");
+        }
+    }
+
+    emit(&rep, c, &xt, &qt, eps);
+
+    // ---- branch / non-vacuity counters, measured by the oracle
+    if t.n_core > 0 {
+        mc::nontrivial();
+    }
+    if t.any_dist_eq_eps {
+        mc::count("some_distance_equals_eps");
+    }
+    if t.any_duplicate {
+        mc::count("duplicate_points");
+    }
+    if t.n_comp >= 2 {
+        mc::count("two_or_more_clusters");
+    }
+    if t.n_core == 0 {
+        mc::count("all_noise");
+    } else if t.n_comp == 1 && t.n_core == n && n >= 2 {
+        mc::count("one_cluster_all_core");
+    }
+    let (mut border, mut noise, mut multi, mut relabel, mut relabel_secondary) = (false, false, false, false, false);
+    for i in 0..n {
+        if t.core[i] {
+            continue;
+        }
+        let comps: Vec<usize> = {
+            let mut v: Vec<usize> = t.adj[i].iter().filter(|&&j| t.core[j]).map(|&j| t.comp[j]).collect();
+            v.sort_unstable();
+            v.dedup();
+            v
+        };
+        if comps.is_empty() {
+            noise = true;
+            continue;
+        }
+        border = true;
+        if comps.len() >= 2 {
+            multi = true;
+        }
+        // A cluster is started at the first core point of its component in scan order (= the
+        // component's representative). A border point that precedes the start of every cluster it
+        // touches is first marked as an outlier by the scan and must be re-labelled later.
+        if comps.iter().all(|&r| i < r) {
+            relabel = true;
+            // ... and it is reached only through a secondary neighbourhood when the cluster's
+            // starting point itself is not within eps of it
+            if comps.iter().all(|&r| !t.adj[i].contains(&r)) {
+                relabel_secondary = true;
+            }
+        }
+    }
+    if border {
+        mc::count("has_border_point");
+    }
+    if noise && t.n_core > 0 {
+        mc::count("noise_next_to_clusters");
+    }
+    if multi {
+        mc::count("border_point_between_two_clusters");
+    }
+    if relabel {
+        mc::count("border_point_scanned_before_its_cluster");
+    }
+    if relabel_secondary {
+        mc::count("border_point_scanned_first_and_reached_via_secondary");
+    }
+    if (0..n).any(|i| t.core[i] && t.adj[i].len() == c.ms) {
+        mc::count("core_with_exactly_min_samples");
+    }
+    mc::outcome(digest);
+    mc::describe(|| {
+        let show = |f: &Fit| match f {
+            Fit::Panic(p) => json!({"fit": "panic", "panic": p.brief()}),
+            Fit::Err(e) => json!({"fit": "error", "error": e}),
+            Fit::Unreadable(e) => json!({"fit": "ok", "labels": "unreadable", "error": e}),
+            Fit::Ok { labels, c, pred } => json!({
+                "fit": "ok", "cluster_labels": labels, "num_classes": c,
+                "predict": match pred { Pred::Panic(p) => json!({"panic": p.brief()}), Pred::Err(e) => json!({"error": e}), Pred::Ok(v) => json!(v) },
+            }),
+        };
+        json!({
+            "family": c.family, "width": format!("f{}", c.width), "points": c.pts, "eps": c.eps, "min_samples": c.ms, "metric": c.metric.name(),
+            "oracle": {"core": t.core, "eps_neighbours": t.adj, "component_of_core": t.comp.iter().map(|r| if *r == usize::MAX { -1 } else { *r as i64 }).collect::<Vec<_>>()},
+            "query_rows": c.queries,
+            "linear_search": show(&lin), "cover_tree": show(&cov),
+        })
+    });
+}
+
+/// Classifies the buffered findings and hands them to the explorer.
+///
+/// Findings about the cover-tree run (and about the comparison of the two backends when the
+/// linear-search run is clean) get the input class `covertree-tight-triangle-rounding` when the
+/// input violates the rounded triangle inequality that the tree's pruning rule relies on (see
+/// `oracle::tight_triangle`); every other finding keeps the key of the clause it breaks.
+fn emit<T: RealNumber>(rep: &Reporter, c: &Case, xt: &[Vec<T>], qt: &[Vec<T>], eps: T) {
+    if rep.items.is_empty() {
+        return;
+    }
+    let linear_fit_clean = !rep.items.iter().any(|i| i.tag == Tag::Linear && i.site.starts_with("dbscan.fit"));
+    let mut fit_witness: Option<Option<(usize, usize, usize)>> = None; // lazily: (q, c, x)
+    let mut fit_w = |xt: &[Vec<T>]| -> Option<(usize, usize, usize)> {
+        if fit_witness.is_none() {
+            fit_witness = Some((0..xt.len()).find_map(|q| oracle::tight_triangle(c.metric, xt, &xt[q], eps).map(|(cc, x)| (q, cc, x))));
+        }
+        fit_witness.unwrap()
+    };
+    let mut emitted: Vec<String> = Vec::new();
+    for it in &rep.items {
+        let is_panic_or_err = it.site.ends_with(":panic") || it.site.ends_with(":overflow-check") || it.site.ends_with(":error");
+        let mut site = it.site.clone();
+        let mut what = it.what.clone();
+        let candidate = !is_panic_or_err && (it.tag == Tag::Cover || (it.tag == Tag::Cross && linear_fit_clean));
+        if candidate {
+            let witness = match it.query {
+                Some(qi) => oracle::tight_triangle(c.metric, xt, &qt[qi], eps).map(|(cc, x)| (format!("query row {:?}", c.queries[qi]), cc, x)),
+                None => fit_w(xt).map(|(q, cc, x)| (format!("training point {}", q), cc, x)),
+            };
+            if let Some((q, cc, x)) = witness {
+                let op = if it.site.starts_with("dbscan.predict") { "predict" } else { "fit" };
+                site = format!("dbscan.{}:covertree-tight-triangle-rounding", op);
+                what = format!(
+                    "[{}] {} || input class: the rounded triangle inequality is violated: point {} is within eps of {} although d({}, point {}) > eps + d(point {}, point {}) in floating point, so the cover tree's pruning test `d <= radius + max_dist` discards it",
+                    it.site, it.what, x, q, q, cc, cc, x
+                );
+            }
+        }
+        if !emitted.contains(&site) {
+            mc::violation(site.clone(), what);
+            emitted.push(site);
+        }
+    }
+}
+
+// ------------------------------------------------------------------------------------------------
+// structured data sets (cached per worker thread: one job = one data set)
+
+thread_local! {
+    static PREP: RefCell<Option<Prepared>> = RefCell::new(None);
+}
+
+fn prepare(job: &Job, seed_tf: (f64, f64)) -> Prepared {
+    let fam = job.s("fam");
+    let d = job.u("d");
+    let order = job.u("order");
+    let (mut pts, exact) = match fam {
+        "chain" => (data::chain(d, job.u("n"), job.u("pattern"), job.u("dir")), true),
+        "blobs" => (data::blobs(d, job.u("k"), job.i("r"), job.i("gap"), job.u("extras")), true),
+        "weyl" => (data::weyl(d, job.u("n"), job.u("k"), job.u("shift")), false),
+        o => panic!("unknown family {}", o),
+    };
+    if exact {
+        data::transform(&mut pts, seed_tf);
+    }
+    let pts = data::reorder(pts, order);
+    // integer blobs with a half-integer bridge are still exact in binary
+    let eps = [data::eps_for(&pts, Metric::Euclid, exact), data::eps_for(&pts, Metric::Manhattan, exact)];
+    let queries = data::queries_for(&pts);
+    Prepared { key: job.name.clone(), pts, queries, eps }
+}
+
+const MS_MAX: usize = 8;
+
+impl Harness for C13 {
+    fn id(&self) -> &'static str {
+        "C13"
+    }
+
+    fn plan(&self, tier: Tier, seed: u64) -> Plan {
+        let t = tier.is_thorough();
+        let mut jobs: Vec<Job> = Vec::new();
+        let ms_cap = if t { MS_MAX } else { 4 };
+        // ---- exhaustive lattices: every SEQUENCE of n points (order matters: scan order decides the
+        // numbering of the clusters and which cluster a border point joins)
+        //                 lattice          f64 n_max (q,t)  f32 n_max (q,t)
+        let lattices = [(Lattice::Line5, (6, 8), (4, 6)), (Lattice::Grid3, (4, 5), (3, 4)), (Lattice::Cube3, (4, 5), (0, 4)), (Lattice::Cube4, (3, 4), (0, 3))];
+        let mut lattice_bounds = Vec::new();
+        for width in [64u8, 32] {
+            for (lat, n64, n32) in lattices {
+                let nmax = match (width, t) {
+                    (64, false) => n64.0,
+                    (64, true) => n64.1,
+                    (_, false) => n32.0,
+                    (_, true) => n32.1,
+                };
+                if nmax == 0 {
+                    continue;
+                }
+                lattice_bounds.push(json!({"lattice": lat.name(), "width": format!("f{}", width), "sequences_of": format!("1..{} points", nmax), "eps": lat.eps_list(t), "min_samples": format!("1..min({}, n+1)", ms_cap), "metrics": ["euclidean", "manhattan"], "backends": ["LinearSearch", "CoverTree"], "predict_rows": lat.queries().len()}));
+                for n in 1..=nmax {
+                    let a = lat.size();
+                    let per_seq = lat.eps_list(t).len() * ms_cap.min(n + 1);
+                    // fix the first L points in the job so that a job stays below ~120k executions
+                    let mut l = 0usize;
+                    while l < n && a.pow((n - l) as u32) * per_seq > 120_000 {
+                        l += 1;
+                    }
+                    for metric in ["euclidean", "manhattan"] {
+                        for code in 0..a.pow(l as u32) {
+                            let mut prefix = vec![0usize; l];
+                            let mut cc = code;
+                            for k in (0..l).rev() {
+                                prefix[k] = cc % a;
+                                cc /= a;
+                            }
+                            let pname: String = prefix.iter().map(|p| format!("{:x}", p)).collect();
+                            jobs.push(Job::new(
+                                format!("{}-f{}-n{}-{}{}", lat.name(), width, n, &metric[..3], if l > 0 { format!("-p{}", pname) } else { String::new() }),
+                                json!({"kind": "lattice", "lattice": lat.name(), "n": n, "metric": metric, "width": width, "prefix": prefix, "ms_cap": ms_cap, "thorough": t}),
+                            ));
+                        }
+                    }
+                }
+            }
+        }
+        // ---- structured families (every member enumerated): chains, lattice blobs, Kronecker sets
+        let orders: &[usize] = if t { &[0, 1, 2, 3] } else { &[0, 2] };
+        let mut structured = 0usize;
+        let chain_ns: &[usize] = if t { &[2, 3, 4, 5, 6, 8, 13, 21, 34, 55, 89, 150] } else { &[4, 8, 21] };
+        for &n in chain_ns {
+            for d in 1..=4usize {
+                for dir in 0..4usize {
+                    if d == 1 && dir > 0 {
+                        continue;
+                    }
+                    if !t && ((dir == 1 && d != 3) || (dir == 3 && d != 2)) {
+                        continue;
+                    }
+                    for pattern in 0..6usize {
+                        if !t && (pattern == 5 || (pattern == 3 && d > 2)) {
+                            continue;
+                        }
+                        for &order in orders {
+                            jobs.push(Job::new(
+                                format!("chain-d{}-n{}-dir{}-pat{}-ord{}", d, n, dir, pattern, order),
+                                json!({"kind": "structured", "fam": "chain", "d": d, "n": n, "dir": dir, "pattern": pattern, "order": order, "ms_cap": MS_MAX}),
+                            ));
+                            structured += 1;
+                        }
+                    }
+                }
+            }
+        }
+        for d in 1..=4usize {
+            for k in 1..=3usize {
+                for r in 1..=2i64 {
+                    if d == 4 && r == 2 && k == 3 && !t {
+                        continue;
+                    }
+                    // at most ~150 points
+                    let ball = data::blobs(d, 1, r, 0, 0).len();
+                    if ball * k + 4 > 154 {
+                        continue;
+                    }
+                    if !t && ball * k > 45 {
+                        continue;
+                    }
+                    for gap in 0..=(if t { 2 } else { 1 }) {
+                        for extras in 0..=2usize {
+                            if !t && extras == 1 {
+                                continue;
+                            }
+                            for &order in orders {
+                                jobs.push(Job::new(
+                                    format!("blobs-d{}-k{}-r{}-gap{}-x{}-ord{}", d, k, r, gap, extras, order),
+                                    json!({"kind": "structured", "fam": "blobs", "d": d, "k": k, "r": r, "gap": gap, "extras": extras, "order": order, "ms_cap": MS_MAX}),
+                                ));
+                                structured += 1;
+                            }
+                        }
+                    }
+                }
+            }
+        }
+        let weyl_ns: &[usize] = if t { &[2, 5, 10, 20, 40, 80, 150] } else { &[5, 20] };
+        for &n in weyl_ns {
+            for d in 1..=4usize {
+                for k in 0..=3usize {
+                    if !t && k == 2 {
+                        continue;
+                    }
+                    for &order in orders {
+                        let shift = (seed as usize % 8) * 1000;
+                        jobs.push(Job::new(
+                            format!("weyl-d{}-n{}-k{}-ord{}", d, n, k, order),
+                            json!({"kind": "structured", "fam": "weyl", "d": d, "n": n, "k": k, "shift": shift, "order": order, "ms_cap": MS_MAX}),
+                        ));
+                        structured += 1;
+                    }
+                }
+            }
+        }
+        let tf = data::seed_transform(seed);
+        for j in jobs.iter_mut() {
+            j.params["tf_scale"] = json!(tf.0);
+            j.params["tf_offset"] = json!(tf.1);
+        }
+        Plan {
+            jobs,
+            budget_s: if t { 2700 } else { 40 },
+            case_deadline_ms: 20_000,
+            floors: floors(t),
+            bounds: json!({
+                "lattices_exhaustive": lattice_bounds,
+                "structured_data_sets": structured,
+                "structured": "chains (n up to 150 [thorough] / 21 [quick], d=1..4, axis/diagonal/staircase, 6 spacing patterns incl. gaps and duplicates), lattice blobs (1..3 Manhattan balls of radius 1..2 in d=1..4, touching / one apart / two apart, with bridge, far noise and duplicated noise points), Kronecker (Weyl) point sets (continuous coordinates, uniform and 1..3 blobs, d=1..4); each in 4 [thorough] / 2 [quick] row orders x both metrics x up to 14 radii per metric (half the smallest / 1.5 x the largest realised distance, mid-points between consecutive distinct realised distances at 8 quantiles, realised distances themselves for integer-valued families) x min_samples 1..8; f64",
+                "seed": format!("coordinate transform x -> {}*x + {} (eps scaled by |{}|); Kronecker index shift {}", tf.0, tf.1, tf.0, (seed % 8) * 1000),
+            }),
+        }
+    }
+
+    fn run(&self, job: &Job) {
+        let tf = (job.f("tf_scale"), job.f("tf_offset"));
+        match job.kind() {
+            "lattice" => {
+                let lat = Lattice::parse(job.s("lattice"));
+                let n = job.u("n");
+                let metric = if job.s("metric") == "euclidean" { Metric::Euclid } else { Metric::Manhattan };
+                let width = job.u("width") as u8;
+                let mut idx: Vec<usize> = job.params["prefix"].as_array().unwrap().iter().map(|v| v.as_u64().unwrap() as usize).collect();
+                while idx.len() < n {
+                    idx.push(mc::choose(lat.size()));
+                }
+                let eps_list = lat.eps_list(job.b("thorough"));
+                let eps = mc::pick(&eps_list) * tf.0.abs();
+                let ms = 1 + mc::choose(job.u("ms_cap").min(n + 1));
+                let mut pts: Vec<Vec<f64>> = idx.iter().map(|&v| lat.point(v)).collect();
+                let mut queries = lat.queries();
+                data::transform(&mut pts, tf);
+                data::transform(&mut queries, tf);
+                let c = Case { family: lat.name(), pts: &pts, queries: &queries, eps, ms, metric, width };
+                if width == 32 {
+                    run_case::<f32>(&c)
+                } else {
+                    run_case::<f64>(&c)
+                }
+            }
+            "structured" => {
+                PREP.with(|p| {
+                    let mut p = p.borrow_mut();
+                    if p.as_ref().map(|x| x.key != job.name).unwrap_or(true) {
+                        *p = Some(prepare(job, tf));
+                    }
+                    let prep = p.as_ref().unwrap();
+                    let mi = mc::choose(2);
+                    let metric = if mi == 0 { Metric::Euclid } else { Metric::Manhattan };
+                    let eps = mc::pick(&prep.eps[mi]);
+                    let ms = 1 + mc::choose(job.u("ms_cap"));
+                    let c = Case { family: job.s("fam"), pts: &prep.pts, queries: &prep.queries, eps, ms, metric, width: 64 };
+                    run_case::<f64>(&c)
+                });
+            }
+            other => panic!("unknown job kind {}", other),
+        }
+    }
+
+    fn rule(&self) -> String {
+        "one execution = one (data set as an ordered sequence of rows, eps, min_samples, metric, number width) fitted with both backends and queried with predict; non-trivial = the oracle finds at least one core point; distinct = distinct digest of (training labels, num_classes, predictions) of both backends".into()
+    }
+
+    fn assumptions(&self) -> Vec<String> {
+        vec![
+            "the training labelling is what the model's serde serialisation exposes as cluster_labels / num_classes; -1 is the noise label".into(),
+            "distances in the oracle are evaluated from the metric's definition in the same number width; on the integer/dyadic families every difference, square and sum is exact and sqrt is correctly rounded, so `d <= eps` has a single possible answer; on the continuous (Kronecker) families eps is a mid-point between well separated (>1e-9 relative) realised distances".into(),
+            "DBSCAN draws no random numbers and iterates over no hash map (read of src/cluster/dbscan.rs and both search structures)".into(),
+            "harness profile: release with overflow-checks and debug-assertions ON (as in cargo test / a user's debug build)".into(),
+        ]
+    }
+}
+
+fn floors(thorough: bool) -> Vec<(&'static str, u64)> {
+    let k = if thorough { 10 } else { 1 };
+    vec![
+        ("both_backends_compared", 100_000 * k),
+        ("some_distance_equals_eps", 50_000 * k),
+        ("duplicate_points", 50_000 * k),
+        ("two_or_more_clusters", 20_000 * k),
+        ("all_noise", 10_000 * k),
+        ("one_cluster_all_core", 10_000 * k),
+        ("has_border_point", 10_000 * k),
+        ("noise_next_to_clusters", 5_000 * k),
+        ("border_point_between_two_clusters", 1_000 * k),
+        ("border_point_scanned_before_its_cluster", 5_000 * k),
+        ("border_point_scanned_first_and_reached_via_secondary", 500 * k),
+        ("core_with_exactly_min_samples", 10_000 * k),
+        ("border_label_differs_between_backends", 100 * k),
+        ("covertree_fit_panics", 50),
+        ("predict_rows_without_neighbours", 100_000 * k),
+        ("predict_rows_plurality_tie", 10_000 * k),
+        ("predict_rows_noise_dominates", 10_000 * k),
+        ("predict_rows_cluster_wins", 100_000 * k),
+    ]
+}
+
+fn main() {
+    mc::main(C13)
+}
+
+#[allow(dead_code)]
+fn _v(_: Value) {}
